@@ -36,16 +36,22 @@ for (prop, _), es in sorted(groups.items()):
     e = es[0]
     print("| %s | %d | `%s` | %s |" % (prop, len(es), e["key"].replace("|", "\\|"), e["what"][:420].replace("|", "\\|").replace("\n", " ")))
 print("\n### 9.6 Seeded changes (fresh sub-agents) and which check catches them\n")
-print("| seeded | breaks | what it needs to manifest | caught by quick check | first keys |\n|---|---|---|---|---|")
+print("Each row: a change to ariga/atlas written by a fresh sub-agent that saw only the property text and its own scratch worktree; confirmed by me (demo passes without / fails with the patch, the repository's tests pass with it); then the quick check of the property (and, under *also*, the quick checks of other properties whose anchor files the patch touches) run against a scratch worktree of /repo HEAD with the patch.\n")
+print("| seeded | what it needs to manifest | own check | first keys | also caught by |\n|---|---|---|---|---|")
+tot = caught = 0
 for d in sorted(glob.glob(V + "/seeded/*/meta.json")):
     m = json.load(open(d))
     name = os.path.basename(os.path.dirname(d))
     r = m.get("what_i_ran", {})
+    own = m.get("breaks_property", m.get("property"))
     ch = r.get("checks", {})
-    caught = ", ".join("%s:%s" % (k, "yes" if v["detected"] else "NO") for k, v in ch.items())
+    ok = ch.get(own, {}).get("detected")
+    tot += 1
+    caught += 1 if ok else 0
     keys = []
-    for v in ch.values():
-        for ln in v.get("lines", []):
-            if "violated key=" in ln:
-                keys.append(ln.split("violated key=")[1].split(":")[0][:60])
-    print("| %s | %s | %s | %s | %s |" % (name, m.get("breaks_property", m.get("property")), m.get("needs_to_manifest", "")[:230].replace("|", "\\|").replace("\n", " "), caught, "; ".join(keys[:2]).replace("|", "\\|")))
+    for ln in ch.get(own, {}).get("lines", []):
+        if "violated key=" in ln:
+            keys.append(ln.split("violated key=")[1].split(":")[0][:60])
+    also = sorted(k for k, v in r.get("cross_checks", {}).items() if v.get("detected"))
+    print("| %s | %s | %s | %s | %s |" % (name, m.get("needs_to_manifest", "")[:260].replace("|", "\\|").replace("\n", " "), "caught" if ok else "MISSED", "; ".join(keys[:2]).replace("|", "\\|"), ", ".join(also)))
+print("\n%d of %d seeded changes are caught by the quick check of their own property at the current /repo HEAD." % (caught, tot))
